@@ -292,7 +292,7 @@ theorem eff_send {env : Env} {σ : Nat → FV → FV} {ds : List Nat} (H : EnvOK
   simp only [hm]
   split
   · obtain ⟨h1, h2⟩ := fanOut_core env m w.dests (fun d hd => H.healthy d (hw.dests d hd))
-      { w with stage := w.stage ++ [m] }
+      { w with stage := w.stage ++ [m], stageAt := w.stageAt ++ [w.dests] }
     simp only [h1, ite_self, World.reportAll]
     exact ⟨h2.acts, h2.ctx, h2.tick, h2.nu, h2.dests, h2.globals, by rw [h2.stage]; simp⟩
   · simp only [World.reportAll]
